@@ -196,6 +196,9 @@ def run_tlc(module, cfg, workers=None, simulate=None, depth=None, seed=None, tim
     cmd += list(extra)
     cmd += [module + ".tla"]
     env = dict(os.environ)
+    if module in ("MC_Gen", "MC_MachineFile", "MC_Snippets") and "PRELUDE" not in (env_extra or {}):
+        import prelude
+        env["PRELUDE"] = prelude.path()
     if env_extra:
         env.update({k: str(v) for k, v in env_extra.items()})
     res = TlcResult()
